@@ -366,6 +366,8 @@ def run(ctx):
         fixed_family(rep, 'R04.a', prog, cg, f)
     compact_family(rep, 'R04.b', prog, cg)
     ext_helpers(rep, 'R04.d', prog, cg)
+    # the length pass keeps the compact field-id context / pending bool exactly as the writer does (push old id, then reset)
+    tp.compact_typestate(rep, 'R04.t', prog, cg)
     rep.floor('R04.a', 70)
     rep.floor('R04.b', 25)
     rep.floor('R04.d', 20)
